@@ -27,8 +27,8 @@ fn bitlen(x: u128) -> u32 {
 fn parse_nums(t: &[&str]) -> Vec<u128> {
     t.iter()
         .map(|x| {
-            if let Some(s) = x.strip_prefix('-') {
-                (-(s.parse::<i128>().unwrap())) as u128
+            if x.starts_with('-') {
+                x.parse::<i128>().unwrap() as u128
             } else {
                 x.parse::<u128>().unwrap()
             }
